@@ -14,10 +14,23 @@ from .report import Ctx, load_known
 
 def apply_variant(sources, v):
     out = dict(sources)
+    import re
     for (rel, old, new) in v["edits"]:
+        if rel == "*":
+            # identifier renamed everywhere
+            hit = False
+            for k in list(out):
+                t = re.sub(r"\b%s\b" % re.escape(old), new, out[k])
+                if t != out[k]:
+                    hit = True
+                    out[k] = t
+            if not hit:
+                return None
+            continue
         if rel not in out or out[rel].count(old) != 1:
             return None
         out[rel] = out[rel].replace(old, new)
+    for rel in out:
         try:
             compile(out[rel], rel, "exec", dont_inherit=True)
         except SyntaxError:
